@@ -113,12 +113,17 @@ static int SHARD, NSHARDS = 1; static long hist_index;     /* BFS bookkeeping is
 static struct { char sig[128]; long n; } sigs[64]; static int nsigs;
 static int fail_flag;
 static long n_hist, n_steps, n_blocked_seen, n_drains;
+#include <time.h>
+static time_t first_viol_at;          /* once a violation is on record the exploration goes on for at most a minute: a library that makes every history
+                                         run into a 5 s answer time-out would otherwise keep the search busy for hours without adding anything */
+static int give_up(void) { return first_viol_at && time(NULL) - first_viol_at > 60; }
 
 static void viol(const char *prop, const char *sig, const char *fmt, ...)
 {
     char buf[1500], rp[700]; va_list ap; int i;
     va_start(ap, fmt); vsnprintf(buf, sizeof buf, fmt, ap); va_end(ap);
     fail_flag = 1;
+    if (!first_viol_at) first_viol_at = time(NULL);
     if (replay_mode) printf("  !! %s: %s\n", sig, buf);
     for (i = 0; i < nsigs; i++) if (!strcmp(sigs[i].sig, sig)) { sigs[i].n++; return; }
     if (nsigs < 64) { strcpy(sigs[nsigs].sig, sig); sigs[nsigs].n = 1; nsigs++; }
@@ -244,6 +249,7 @@ static void shist_text(const SOp *h, int n, char *buf, size_t sz)
 static void srun(const SOp *h, int n, int final_checks)
 {
     SRef r; int i, eb, wp; Rep rep; Cmd c; char sg[96];
+    if (!replay_mode && give_up()) { fail_flag = 1; return; }
     sref_init(&r);
     unlink_names();
     start_workers();
@@ -333,6 +339,7 @@ static void mhist_text(const MOp *h, int n, char *buf, size_t sz)
 static void mrun(const MOp *h, int n, int final_checks)
 {
     MRef r; int i; Rep rep; Cmd c; char sg[96];
+    if (!replay_mode && give_up()) { fail_flag = 1; return; }
     mref_init(&r);
     unlink_names(); start_workers(); n_hist++;
     for (i = 0; i < n && !fail_flag; i++) {
@@ -401,7 +408,7 @@ static int sem_bfs(void)
 {
     int s; SOp z; memset(&z, 0, sizeof z);
     { SRef r; char cb[256]; sref_init(&r); scanon(&r, cb, sizeof cb); st_add(cb, -1, 0, &z, sizeof z); }
-    for (s = 0; s < nhs; s++) {
+    for (s = 0; s < nhs && !give_up(); s++) {
         SOp h[32]; int n = hs[s].depth, i, x = s; SRef r; int eb, wp;
         for (i = n; i > 0; i--) { memcpy(&h[i - 1], hs[x].op, sizeof(SOp)); x = hs[x].parent; }
         {   /* enumerate ops */
@@ -444,7 +451,7 @@ static int shm_bfs(void)
 {
     int s; MOp z; memset(&z, 0, sizeof z);
     { MRef r; char cb[400]; mref_init(&r); mcanon(&r, cb, sizeof cb); st_add(cb, -1, 0, &z, sizeof z); }
-    for (s = 0; s < nhs; s++) {
+    for (s = 0; s < nhs && !give_up(); s++) {
         MOp h[32]; int n = hs[s].depth, i, x = s; MRef r; int op, slot, name, val;
         for (i = n; i > 0; i--) { memcpy(&h[i - 1], hs[x].op, sizeof(MOp)); x = hs[x].parent; }
         for (op = 0; op < 7; op++) for (slot = 0; slot < NSLOT; slot++) for (name = 0; name < (op == 0 ? 2 : 1); name++) for (val = 0; val < (op <= 2 ? 3 : 1); val++) {
